@@ -2396,7 +2396,7 @@ impl C10 {
             Some(Ok((what, size))) => {
                 // S: a value may only be delivered when every announced byte arrived
                 if delivered < announced {
-                    out.oracle_fail("frame:truncated_accepted",
+                    out.oracle_fail("frame:truncated_accepted:mux_recv_proto",
                         &format!("truncated frame accepted as a complete message: sent {} / announced {announced} bytes, delivered {delivered} < {announced}, decoded as {what}", op["sent"].as_str().unwrap_or("?")),
                         op.clone());
                 }
